@@ -17,7 +17,7 @@
     - C02_select_first_match, C02_chained_compare_is_conjunction, C02_concat_msb_left, C02_shift_right_kind. *)
 From Coq Require Import ZArith NArith List Bool Lia.
 From Cohdl Require Import Base.Bits Vhdl.Value Vhdl.NumStd Equiv.RefTS Models.ExprRef Models.ExprRefProofs.
-From Cohdl Require Import Vhdl.Syntax Vhdl.Sem Models.ExprEmit Models.ExprEmitProofs.
+From Cohdl Require Import Vhdl.Syntax Vhdl.Sem Models.ExprEmit Models.ExprEmitProofs Models.ExprEmitMore.
 Import ListNotations.
 Local Open Scope Z_scope.
 
@@ -264,3 +264,25 @@ Example C02_emit_arith_int_literal_nonvacuous :
   rng KS 3 (-4) /\ arith_lit_ok BTruncDiv KS 3 3 = true /\ bin_val BTruncDiv KS 3 (-4) KInt 0 3 = Some (-1).
 Proof. vm_compute. auto 10. Qed.
 Print Assumptions C02_emit_arith_int_literal_nonvacuous.
+
+
+(** ** ALL EXPRESSION TREES, full statement (Models/ExprEmitMore.v): every tree inside [emit]'s grammar - the [proved_part]
+    restriction of the partial theorem above is gone: arithmetic with an int literal on either side, & | ^, concatenation and
+    resize (with and without zeros) are composed into the induction.  For every store matching the environment, every tree
+    the model prints, every width and every operand valuation on which the documented value is defined, the printed
+    expression evaluates under Vhdl.Sem to the documented value. *)
+Theorem C02_emit_correct : forall pos en sg vr ev, store_matches pos en sg -> forall e ex t,
+  emit pos e = Some ex -> tyof e = Some t -> in_emit_grammar e = true ->
+  defined (xeval en e) = true -> eval sg vr ev ex = Ok (to_value (xeval en e)).
+Proof. exact emit_correct_full. Qed.
+Print Assumptions C02_emit_correct.
+
+Example C02_emit_correct_more_nonvacuous :
+  store_matches ex_pos ex_en ex_sg /\
+  (forall e, In e [ex_m1; ex_m2; ex_m3; ex_m4] ->
+     (exists ex, emit ex_pos e = Some ex) /\ (exists t, tyof e = Some t) /\ in_emit_grammar e = true /\
+     proved_part2 e = true /\ proved_part e = false /\ defined (xeval ex_en e) = true) /\
+  xeval ex_en ex_m1 = TV KBV 7 61 /\ xeval ex_en ex_m2 = TV KU 4 8 /\ xeval ex_en ex_m3 = TV KS 3 1 /\
+  xeval ex_en ex_m4 = TV KU 6 4.
+Proof. pose proof emit_correct_more_nonvacuous as H. intuition. Qed.
+Print Assumptions C02_emit_correct_more_nonvacuous.
